@@ -1,45 +1,60 @@
 package main
 
 import (
+	"flag"
 	"fmt"
 	"os"
+	"strconv"
 
-	"golang.org/x/tools/go/packages"
-	"golang.org/x/tools/go/ssa"
-	"golang.org/x/tools/go/ssa/ssautil"
+	"govc/internal/eng"
 )
 
+func usage() {
+	fmt.Fprintln(os.Stderr, "usage: vp check <Cxx> [--tier quick|thorough] [--only re] [--keep-smt dir] | vp ssa <pkg> <func> | vp list <Cxx>")
+	os.Exit(2)
+}
+
 func main() {
-	cfg := &packages.Config{Mode: packages.LoadSyntax, Dir: "/repo", BuildFlags: []string{"-tags=verif"}}
-	pkgs, err := packages.Load(cfg, os.Args[2:]...)
-	if err != nil {
-		panic(err)
+	if len(os.Args) < 2 {
+		usage()
 	}
-	prog, spkgs := ssautil.Packages(pkgs, ssa.InstantiateGenerics)
-	_ = prog
-	for _, p := range spkgs {
-		if p == nil {
-			continue
-		}
-		p.Build()
-		for _, m := range p.Members {
-			if f, ok := m.(*ssa.Function); ok && f.Name() == os.Args[1] {
-				f.WriteTo(os.Stdout)
-			}
-		}
-		for _, m := range p.Members {
-			if t, ok := m.(*ssa.Type); ok {
-				for _, typ := range []interface{ String() string }{t.Type()} {
-					_ = typ
-				}
-				ms := prog.MethodSets.MethodSet(t.Type())
-				for i := 0; i < ms.Len(); i++ {
-					if f := prog.MethodValue(ms.At(i)); f != nil && f.Name() == os.Args[1] {
-						f.WriteTo(os.Stdout)
-					}
-				}
-			}
-		}
+	verifDir := os.Getenv("VERIF_DIR")
+	if verifDir == "" {
+		verifDir = "/verif"
 	}
-	fmt.Println("done")
+	repoDir := os.Getenv("VERIF_REPO")
+	if repoDir == "" {
+		repoDir = "/repo"
+	}
+	switch os.Args[1] {
+	case "check":
+		fs := flag.NewFlagSet("check", flag.ExitOnError)
+		tier := fs.String("tier", "quick", "quick|thorough")
+		only := fs.String("only", "", "regexp on obligation names")
+		keep := fs.String("keep-smt", "", "directory to keep SMT files")
+		verbose := fs.Bool("v", false, "verbose")
+		allf := fs.Bool("all", false, "all functions under contract")
+		noev := fs.Bool("no-evidence", false, "do not write evidence")
+		if len(os.Args) < 3 {
+			usage()
+		}
+		prop := os.Args[2]
+		fs.Parse(os.Args[3:])
+		if t := os.Getenv("VERIF_TIER"); t != "" {
+			*tier = t
+		}
+		seed := 0
+		if s := os.Getenv("VERIF_SEED"); s != "" {
+			seed, _ = strconv.Atoi(s)
+		}
+		opts := &eng.CheckOpts{Prop: prop, Tier: *tier, Seed: seed, Only: *only, KeepSMT: *keep, VerifDir: verifDir, RepoDir: repoDir, Verbose: *verbose, AllFuncs: *allf, NoEvidence: *noev || *only != ""}
+		os.Exit(eng.RunCheck(opts))
+	case "ssa":
+		if len(os.Args) < 4 {
+			usage()
+		}
+		eng.DumpSSA(repoDir, os.Args[2], os.Args[3])
+	default:
+		usage()
+	}
 }
